@@ -161,6 +161,7 @@ func ExecPlan(t *testing.T, eng Engine, p *Plan, work string) (o *Outcome) {
 			s := simcore.NewSched(p.SchedSeed, p.Tape)
 			s.LockYieldPermille = p.LockYield
 			s.StickyPermille = p.Sticky
+			s.Pct, s.PctHorizon = p.Pct, p.PctHorizon
 			rc.Sched = s
 			defer simcore.Uninstall()
 			var res *Outcome
